@@ -29,8 +29,8 @@ Modelling decisions
   integers: they are the state's values in units of max_capacity (the only scale under which the
   documented bounds hold), compared with rtol 1e-5.  `unvisited_nodes` is the complement of the
   visited set; its depot entry is compared with "not at the depot".
-* C08 objective = minus the closed route length recomputed from `trajectory`; defined only for
-  complete routes (every customer visited, back at the depot), which is how every mask-respecting
+* C08 objective = minus the length of the route recomputed from `trajectory`, closed back to the depot;
+  defined for routes that serve every customer, which is how every mask-respecting
   episode ends (the depot is always reachable away from it, and a full vehicle can serve any customer
   because max_capacity >= max_demand).
 """
@@ -201,10 +201,11 @@ def check_complete(env: Any, s: Any, ts: Any) -> List[str]:
 def objective(env: Any, s: Any, ts: Any) -> float | None:
     n = _n(env)
     route = _route(env, s)
-    if not route or route[-1] != 0 or set(route) != set(range(n + 1)):
+    if not route or route[0] != 0 or any(v < 0 or v > n for v in route):
         return None
-    if any(v < 0 or v > n for v in route):
-        return None
+    if not set(range(1, n + 1)) <= set(route):
+        return None  # not a completed episode (cannot happen under mask-respecting play)
+    # the tour starts at the depot and is closed back to it, wherever the episode stopped
     return -_route_len(s.coordinates, route, closed=True)
 
 
